@@ -441,6 +441,8 @@ where
                     let mut scc = sc.clone();
                     let _ = Self::apply_lin(&mut lc, self.def, &e);
                     let _ = Self::apply_sc(&mut scc, self.def, &e);
+                    // the clone is queried too (anything it computes or caches is its own)
+                    let _ = (lc.is_consistent(), lc.serialized_history(), scc.is_consistent(), scc.serialized_history());
                     let mut r = self.shared.lock().unwrap();
                     r.transitions += 2;
                     drop(r);
